@@ -596,6 +596,24 @@ class Parser:
                 else:
                     break
             if self.at("!") and not self.at("!=") and self.peek(1).k == "p" and self.peek(1).s in "([{":
+                if segs == ["format"] and self.peek(1).s == "(":
+                    # `format!(..)`: a String built for a message; kept as an opaque node that is accepted ONLY as
+                    # an argument of an error constructor (`Tr.error_value`); anywhere else `tr` refuses the kind
+                    self.p += 1
+                    depth = 0
+                    while True:
+                        t = self.peek()
+                        if t.k == "eof":
+                            raise U(ln, "unterminated macro invocation")
+                        if t.k == "p" and t.s == "(":
+                            depth += 1
+                        elif t.k == "p" and t.s == ")":
+                            depth -= 1
+                            if depth == 0:
+                                self.p += 1
+                                break
+                        self.p += 1
+                    return N("macro", ln, name="format")
                 raise U(ln, f"macro invocation `{'::'.join(segs)}!`")
             if self.at("{") and not nostruct and (segs[-1][0].isupper()):
                 return self.struct_lit(segs, ln)
@@ -2317,9 +2335,12 @@ class Tr:
                 self.error_value(e, env)
                 return "ERR", "err"
             name = e["segs"][-1]
-            if len(e["segs"]) != 1 or name not in self.names:
+            if e["segs"] == ["Self"] and isinstance(self.self_ty, tuple) and self.self_ty[0] == "struct":
+                key = self.self_ty[1]   # `Self { .. }` inside an inherent impl of a struct of the type table
+            elif len(e["segs"]) != 1 or name not in self.names:
                 raise U(ln, f"struct literal of `{'::'.join(e['segs'])}`")
-            key = self.names[name]
+            else:
+                key = self.names[name]
             kind, fields, _ = self.ctx.typedef(key)
             if kind != "struct":
                 raise U(ln, "literal of an enum struct-variant")
@@ -3473,6 +3494,73 @@ KERNELS += [
                        result=["start_time"]),
          props=["C20"], model="the start-time arithmetic of WW.Epoch.Dist.createNewEpoch",
          theorem="WW.KernelsEpochStep.gen_distributor_new_epoch_start_eq_model", module="WW.Props.Kernels.EpochStep"),
+]
+
+# ---- the 3pool's amp-ramp validation (C04, C18): inline in `commands::update_config` ---------------------------------
+# `consts_from`: further files of the same crate whose `const` items the stretch names through a `use` (the `use`
+# structure is NOT read; the list is part of the kernel table).  A name is looked up in the kernel's own file first.
+STRUCTURAL += [
+    ("consts_from in the kernel entry", "a `const` named by the stretch is looked up in the kernel's file, then in the listed files of the crate; inlined like a local const"),
+    ("nested error constructors / format! in error position", "`ContractError::Std(StdError::generic_err(format!(..)))`: nothing of an error value reaches the Lean side; the arguments of `format!` must be constants or effect-free"),
+]
+_tr_path_base = Tr.tr_path
+_error_value_base = Tr.error_value
+
+
+def _tr_path_with_consts_from(self, e, env, expected):
+    segs = e["segs"]
+    if len(segs) == 1 and segs[0] not in env and segs[0] not in self.file.consts and segs[0] not in ("None",):
+        for rel in self.kern.get("consts_from", []):
+            f2 = self.ctx.file(rel)
+            if segs[0] in f2.consts:
+                saved = self.file
+                self.file = f2
+                try:
+                    return self.tr_const(segs[0], e["line"])
+                finally:
+                    self.file = saved
+    return _tr_path_base(self, e, env, expected)
+
+
+def _error_value_nested(self, e, env):
+    k = e["k"]
+    if k == "call" and e["f"]["k"] == "path" and is_error_path(e["f"]["segs"]):
+        for a in e["args"]:
+            if a["k"] == "str":
+                continue
+            if a["k"] == "call" and a["f"]["k"] == "path" and is_error_path(a["f"]["segs"]):
+                self.error_value(a, env)
+                continue
+            if a["k"] == "macro" and a.get("name") == "format":
+                continue
+            self.pure_discard(a, env)
+        return
+    return _error_value_base(self, e, env)
+
+
+Tr.tr_path = _tr_path_with_consts_from
+Tr.error_value = _error_value_nested
+
+TRIO_COMMANDS = PN + "stableswap_3pool/src/commands.rs"
+TRIO_CONTRACT = PN + "stableswap_3pool/src/contract.rs"
+TRIO_STD = STD + "pool_network/trio.rs"
+TYPES["RampAmp"] = dict(rust="RampAmp", file=TRIO_STD, lean="RampAmp")
+KERNELS += [
+    dict(lean="StableSwap_new", file=CURVE_RS, impl="StableSwap", fn="new", types={"StableSwap": "StableSwap"},
+         props=["C04", "C18"], model="(constructor; part of WW.Trio.AmpCfg.at)",
+         theorem="WW.KernelsRamp.gen_trio_ramp_validation_eq_model", module="WW.Props.Kernels.Ramp"),
+    dict(lean="trio_ramp_validation", file=TRIO_COMMANDS, fn="update_config",
+         fragment=dict(start=r"^\s*let invariant = StableSwap::new\(", end=r"^\s*config\.future_amp = ramp\.future_a;",
+                       params=[("initial_amp", "u64"), ("future_amp", "u64"), ("initial_amp_block", "u64"), ("future_amp_block", "u64"),
+                               ("height", "u64"), ("ramp", "RampAmp")],
+                       subst=[("env.block.height", "height"), ("config.initial_amp_block", "initial_amp_block"),
+                              ("config.future_amp_block", "future_amp_block"), ("config.initial_amp", "initial_amp"),
+                              ("config.future_amp", "future_amp")],
+                       mut_params=["initial_amp", "future_amp", "initial_amp_block", "future_amp_block"],
+                       result=["initial_amp", "future_amp", "initial_amp_block", "future_amp_block"]),
+         types={"StableSwap": "StableSwap", "RampAmp": "RampAmp"}, consts_from=[TRIO_CONTRACT],
+         props=["C04", "C18"], model="WW.Trio.rampAmp",
+         theorem="WW.KernelsRamp.gen_trio_ramp_validation_eq_model", module="WW.Props.Kernels.Ramp"),
 ]
 
 # the generated file imports the map primitives next to the number primitives
